@@ -214,7 +214,8 @@ def repsOf (decls : List Decl) (a b : Ty) (cap : Nat := 60) : Reps :=
   let lits := litsL all
   { nums := dedupS (lits.filterMap (fun v => match v with | .num c => some c | _ => none) ++ ["7919"])
     strs := dedupS (lits.filterMap (fun v => match v with | .str s => some s | _ => none) ++ ["zz_fresh"])
-    keys := dedupS (keysL all ++ ["k_fresh"])
+    -- two fresh keys: a witness against a union of index-signature types needs two undeclared positions
+    keys := dedupS (keysL all ++ ["k_fresh", "k_fresh2"])
     maxLen := maxTupleL all + 1
     cap := cap }
 
@@ -315,7 +316,7 @@ structure Verdict where
   witness : Option JsVal
   complete : Bool          -- false when a cap or the depth bound cut the enumeration, or membership ran out of fuel
 
-def inclusion (decls : List Decl) (a b : Ty) (depth : Nat := 5) : Verdict :=
+def inclusion (decls : List Decl) (a b : Ty) (depth : Nat := 8) : Verdict :=
   let r := repsOf decls a b
   let (xs0, cut) := enumExact decls r depth a
   -- only values that the reference itself accepts as exact values of A may serve as witnesses
@@ -474,5 +475,36 @@ def idxTy (decls : List Decl) (t k : Ty) : Option Ty :=
     match per.mapM id with
     | some parts => some (.union parts.flatten)
     | none => none
+
+mutual
+/-- hypothesis `NoIndexUnionOnRight` (finding D84): no union in the type — at any depth — has two or more members
+that are object types with an index signature. The emptiness check treats "all undeclared keys" as ONE coordinate, so
+after one such member has been refuted at the index signature the narrowed signature is used against the next one,
+although each of them can be refuted at its own fresh key. -/
+def noIndexUnion (decls : List Decl) : Nat → Ty → Bool
+  | 0, _ => false
+  | n+1, t =>
+    let cs := conjs decls 20 t
+    let ixConjs := cs.filter fun c =>
+      match (c.filter (fun a => !isTop a)).mapM (shapeX decls 50) with
+      | some (s0 :: rest) => ((rest.foldl mergeShape s0).2).isSome
+      | _ => false
+    ixConjs.length ≤ 1 && cs.all fun c => c.all fun a => match a with
+      | .array x | .paren x | .readonly x => noIndexUnion decls n x
+      | .tuple pre rest => noIndexUnionL decls n pre && (match rest with | some r => noIndexUnion decls n r | none => true)
+      | .obj ms ix => noIndexUnionM decls n ms && (match ix with | some (_, v) => noIndexUnion decls n v | none => true)
+      | .ref name args => (match decls.find? (fun d => d.name == name) with
+        | some (.alias _ ps body) => if n < 30 then true else noIndexUnion decls (n - 20) (subst (ps.zip args) body)
+        | _ => true)
+      | _ => true
+def noIndexUnionL (decls : List Decl) : Nat → List Ty → Bool
+  | 0, _ => false
+  | _+1, [] => true
+  | n+1, t :: ts => noIndexUnion decls n t && noIndexUnionL decls n ts
+def noIndexUnionM (decls : List Decl) : Nat → List (String × Bool × Ty) → Bool
+  | 0, _ => false
+  | _+1, [] => true
+  | n+1, (_, _, t) :: ms => noIndexUnion decls n t && noIndexUnionM decls n ms
+end
 
 end BeffVerif.SubSpec
